@@ -48,8 +48,9 @@
      onWrite incl. deadlines onWrite + progress / suspended,    with the ends of run() calls and the size probes
      resumed = read notifications come back / peer) and         ANYWHERE; the kernel-asked events, hence the deadline
      leaves open what the text leaves open: number and size     clauses, are part of the one-client trace only)
-     of send calls, order of callbacks of different clients,
-     onClosed.  THIS is the oracle
+     of send calls, order of callbacks of different clients,   n_client_history_meets_deadlines (trace2a: WITH the
+     onClosed.  THIS is the oracle                              kernel-asked events, for histories in which a run()
+                                                                ends where Server::run can return: runs_ok)
      the implementation is judged by (checks/C13.py runs the
      extracted monitor on the observed trace).
    model = reference OBJECT (one exact observation per         model_refines_spec (ServerWriteRefine.v)
@@ -62,7 +63,8 @@
    kernel, checks/C13.py). *)
 From Coq Require Import ZArith List Bool.
 From ServerWrite Require Import ServerWriteSpec ServerWriteModel ServerWriteProofs ServerWriteTheorems ServerWriteRefine
-  ServerWrite2Spec ServerWrite2Model ServerWrite2Proofs ServerWrite2Refine ServerWriteMonitor ServerWriteMonitorProofs.
+  ServerWrite2Spec ServerWrite2Model ServerWrite2Proofs ServerWrite2Refine ServerWriteMonitor ServerWriteMonitorProofs
+  ServerWriteMonitor2Proofs.
 Import ListNotations.
 Local Open Scope Z_scope.
 
@@ -256,6 +258,21 @@ Theorem two_client_history_accepted_by_property_monitor : forall h c,
 Proof. exact two_client_trace_accepted_lemma. Qed.
 Print Assumptions two_client_history_accepted_by_property_monitor.
 
+(* The deadline clauses (progress, the onWrite deadline, resumed) for n clients.  [trace2a c init2 h] is [trace2] plus the
+   kernel-asked events: a poll round that asks the kernel (Collect while nothing is cached) shows client c whether the
+   kernel finds its socket writable / finds unread input.  [runs_ok false init2 h]: every poll round reports a client at
+   most once, and a run() ends ([H2RunEnd]) only where Server::Private::run can return after the kernel reported the
+   interrupt - when no collected notification is left, or directly after the poll round that collected them (the
+   interrupt was part of the same epoll batch).  This is the form of the traces the judge feeds the monitor for cases
+   with several clients (checks/C13.py: `wr`, `rd` at the tokens of epoll_wait, `re` only for runs that ended on the
+   interrupt).  Proof (ServerWriteMonitor2Proofs.v): an open deadline of client c implies that c's notification is still
+   cached with the part in question; Poll::set prunes a part only when the client stops wanting it (suspend: the read
+   side, which cancels the read deadline), the delivery of the notification discharges the deadline. *)
+Theorem n_client_history_meets_deadlines : forall h c,
+  runs_ok false init2 h -> exists m, mon_run mon_init (trace2a c init2 h) = Go m.
+Proof. exact n_client_deadlines_lemma. Qed.
+Print Assumptions n_client_history_meets_deadlines.
+
 (* ---- non-vacuity ------------------------------------------------------------------------------------ *)
 
 (* the monitor rejects what contradicts the text ... *)
@@ -418,4 +435,30 @@ Proof. vm_compute. split; reflexivity. Qed.
 
 Example ex_embedding :
   map o2_out (snd (exec2 init2 (map (On 0%nat) ex_ops))) = snd (exec init ex_ops).
+Proof. vm_compute. reflexivity. Qed.
+
+(* three clients, client 2 has a backlog, client 1 unread input; the interrupt is reported in the same epoll batch as the
+   readiness of all three (the run() ends right after the Collect), the next run() hands the notifications out; the
+   history satisfies runs_ok and the trace of client 2 / client 1 contains the kernel-asked events and both run ends *)
+Definition ex_h3 : list hop2 :=
+  [H2Op (On 2%nat (Write [1; 2; 3] WouldBlock)); H2Op (On 1%nat (PeerWrite [9]));
+   H2Op (Collect [(0%nat, mknative false true false false false); (1%nat, mknative true false false false false);
+                  (2%nat, mknative false true false false false)]); H2RunEnd;
+   H2Op (Deliver Full); H2Op (Deliver (Sent 2)); H2Size 2%nat; H2RunEnd;
+   H2Op (Collect [(2%nat, mknative false true false false false)]); H2Op (Deliver Full); H2RunEnd].
+
+Example ex_h3_runs_ok : runs_ok false init2 ex_h3.
+Proof. simpl. repeat split; auto; repeat constructor; simpl; intuition congruence. Qed.
+
+Example ex_h3_traces :
+  trace2a 2%nat init2 ex_h3 =
+    [EWrite [1; 2; 3] true (Some 3) []; EWritable; ERunEnd; EHand [1; 2]; ESize 1; ERunEnd; EWritable; EHand [3]; ECb OnWrite; ERunEnd] /\
+  trace2a 1%nat init2 ex_h3 = [EReadable; ERunEnd; ECb OnRead; ERunEnd; ERunEnd] /\
+  (exists m, mon_run mon_init (trace2a 2%nat init2 ex_h3) = Go m /\ m_pend m = [] /\ m_owed m = false).
+Proof. vm_compute. repeat split. eexists. repeat split. Qed.
+
+(* the hypothesis is needed: a history in which two run() calls end while the notification of client 2 is still cached
+   (no run() of the server returns like that) is rejected by clause progress *)
+Example ex_runs_ok_needed :
+  mon_run mon_init (trace2a 2%nat init2 (firstn 4 ex_h3 ++ [H2RunEnd])) = Stop c_progress.
 Proof. vm_compute. reflexivity. Qed.
